@@ -73,7 +73,14 @@ def run(sid, props, tier):
     results = {}
     try:
         rc, out = sh("git apply %s" % os.path.join(d, "patch.diff"), cwd=wt)
-        assert rc == 0, out
+        if rc != 0:
+            # the patch was made against an earlier HEAD of /repo (before later `fix:` commits): try a three-way merge
+            rc, out = sh("git apply --3way %s" % os.path.join(d, "patch.diff"), cwd=wt)
+        if rc != 0:
+            meta.setdefault("check_results", {})["stale"] = "patch no longer applies to /repo HEAD %s" % sh("git -C %s rev-parse --short HEAD" % REPO)[1].strip()
+            json.dump(meta, open(os.path.join(d, "meta.json"), "w"), indent=1)
+            print(sid, "STALE: patch does not apply")
+            return 3
         for p in props:
             rc, out = sh("VERIF_REPO=%s VERIF_WORK=%s ./check %s --tier %s" % (wt, os.path.join(ROOT, ".work", "mut_" + sid), p, tier), cwd=ROOT, timeout=7200)
             results[p] = {"rc": rc, "lines": [l for l in out.split("\n") if l.startswith(("VIOLATION", "KNOWN", "UNDECIDED", p))][:12]}
